@@ -44,3 +44,24 @@ Print Assumptions search_span_is_leftmost_longest.
 Theorem submatch_span_check_sound : forall r s spans, check_spans r s spans = true -> spans_valid r s spans.
 Proof. exact check_spans_sound. Qed.
 Print Assumptions submatch_span_check_sound.
+
+(** regexp-fold: the model of the iteration always terminates within its fuel, every span it hands to kons
+    delimits text in the language (in its true context inside the subject), and the first one is the
+    leftmost-longest match of the whole subject *)
+Theorem fold_spans_sound : forall r s,
+  exists l, fold_spans r s = Some l /\
+            Forall (fun ab => in_lang false r s (fst ab) (snd ab)) l /\
+            (s <> [] -> hd_error l = search_span r s).
+Proof. exact fold_spans_spec. Qed.
+Print Assumptions fold_spans_sound.
+
+(** sanity of the SPEC: an SRE without anchors denotes a plain language (the surrounding characters do not
+    matter), and character comparison under w/nocase is equality of simple case foldings *)
+Theorem anchor_free_language_ignores_context : forall r, anchor_free r = true ->
+  forall ci p s n p' n', L ci r p s n -> L ci r p' s n'.
+Proof. exact anchor_free_context_independent. Qed.
+Print Assumptions anchor_free_language_ignores_context.
+
+Theorem ci_fold_law : forall c d, (ci_eq true c d <-> fold c = fold d) /\ (ci_eq false c d <-> c = d).
+Proof. intros c d. split; [apply ci_eq_fold|apply ci_eq_false]. Qed.
+Print Assumptions ci_fold_law.
